@@ -958,12 +958,14 @@ def replay_case(ctx, case, monitors, conform=True, judge_error=None):
 def e2_plans(ctx, menu, monitors, entry="fit", conform=True, inits="all"):
     """menu: list of (driver, limits, bound)"""
     out = []
-    for (name, limits, bound) in menu:
+    for entry_ in menu:
+        (name, limits, bound) = entry_[:3]
         d = get_driver(name, ctx.seed)
         ii = all_labellings(d.Tp, d.K) if inits == "all" else inits(d)
+        # every m-subset per donor draw only where the run count stays affordable (small drivers, bound <= 1)
+        cap = entry_[3] if len(entry_) > 3 else (64 if (ctx.thorough and bound <= 1 and len(ii) <= 256) else 10)
         out.append(dict(driver=name, seed=ctx.seed, inits=ii, limits=limits, bound=bound, entry=entry,
-                        monitors=monitors, conform=conform,
-                        subset_cap=64 if (ctx.thorough and bound <= 1) else 10))
+                        monitors=monitors, conform=conform, subset_cap=cap))
     return out
 
 
